@@ -200,7 +200,7 @@ def main(prop, tier, seed, replay_path=None):
         counters={k: (int(v) if float(v).is_integer() else round(v, 3)) for k, v in stats.items()},
         counterexamples=dict(found=len(cands), distinct=len(keys), reproduced=len(keys) - len(not_repro),
                              known_findings_matched=len(known_hit), violations=len(violations)),
-        known_findings_not_reproduced=missing[:50],
+        known_findings_not_reproduced=missing[:2000],
         repo=_repo_version(), units=len(units), unit_errors=len(errors), notes=notes[:40],
     )
     ev = dict(property_id=prop, tier=tier, seed=int(seed), level=mod.LEVEL, coverage=cov,
